@@ -26,6 +26,7 @@ A violation key names WHAT differed and in WHICH form class it is confined
 import io
 import os
 import random
+import unicodedata
 import warnings
 
 from .. import core
@@ -91,7 +92,8 @@ MUST_REACH = ['debian.deb822:Deb822._internal_parser',
               'debian.deb822:_gpg_multivalued.__init__',
               'debian.deb822:_AutoDecoder.decode']
 
-DOCS = {'quick': 3000, 'thorough': 160000}      # random documents (TOTAL over shards); + the enumerated grid
+DOCS = {'quick': 3000, 'thorough': 160000}      # random documents (TOTAL over shards); + the enumerated grids
+UNI_EVERY = 5                                   # one random document in UNI_EVERY is a "uni" document
 
 FLOORS = {
     # ~50% of the minimum a run on the current tree measures over VERIF_SEED 0..3
@@ -182,6 +184,55 @@ COMMENTS = ['#', '# c', '#c', '#K: v', '#\tx', '# -----BEGIN PGP SIGNATURE-----'
             '#-----BEGIN PGP SIGNED MESSAGE-----', '# é', '## x', '#:', '# Key: value ', '#\t']
 MARK_TRAILS = ['', '', ' ', '\t', '  ', '\r', ' \r', '\t \r', ' \t']
 
+# --- "uni" class: valid Unicode that a careless decoder / line splitter treats differently ----------------------
+# (1) text that is NOT in (some) Unicode normal form - it must come back code point for code point
+UNI_NONNORMAL = [
+    'e\u0301', 'A\u030a', 'q\u0307\u0323', '\u1e9b\u0323',                       # decomposed / non-canonical mark order
+    '\u2126', '\u212b', '\u212a', '\u037e', '\u0387', '\u1f71', '\u0340', '\u0344', '\u0958',   # singletons, exclusions
+    '\uf900', '\uf91d', '\ufa10', '\U0002f800',                                      # CJK compatibility ideographs
+    '\u1112\u1161\u11ab', '\u1100\u1161', '\ud55c', '\uac01',                        # Hangul jamo / precomposed syllables
+    '\ufb01', '\xb5', '\uff21', '\uff42\uff43', '\uff11', '\u2460', '\xbd', '\u2163', '\u01c4', '\u3392',
+    '\xaa', '\xb2', '\u2122', '\u2026',                                              # compatibility characters
+    '\xe9', '\xc5', '\u0178', '\u0160', '\u017e']                                    # precomposed (not NFD)
+# (2) characters whose UTF-8 form holds a byte that is a line boundary / blank in Latin-1 (0x85 NEL, 0xA0 NBSP); the
+# cp1252 byte 0x85 is U+2026 (above); a few whose UTF-16 form holds a 0x0A / 0x0D / 0x85 byte
+UNI_BYTE85 = ['\u0105', '\u0445', '\xc5', '\u2005', '\u0145', '\u2045', '\u4e05', '\U0001f605', '\u0a85']
+UNI_BYTEA0 = ['\u0420', '\xe0', '\xa0', '\u2020', '\u3060', '\u0820', '\U0001f4a0', '\u0120']
+UNI_UTF16 = ['\u010a', '\u0d0a', '\u0a0a', '\u200a', '\u850a']
+UNI_ALL = []
+for _a in UNI_NONNORMAL + UNI_BYTE85 + UNI_BYTEA0 + UNI_UTF16:
+    if _a not in UNI_ALL:
+        UNI_ALL.append(_a)
+
+
+def _encodable(a, enc):
+    try:
+        a.encode(enc)
+        return True
+    except UnicodeEncodeError:
+        return False
+
+
+UNI_PROFILES = ('any', 'any', 'any', 'latin1', 'cp1252')
+UNI_BY_PROFILE = {'any': UNI_ALL,
+                  'latin1': [a for a in UNI_ALL if _encodable(a, 'latin-1')],
+                  'cp1252': [a for a in UNI_ALL if _encodable(a, 'cp1252')]}
+NORMAL_FORMS = ('NFC', 'NFD', 'NFKC', 'NFKD')
+
+
+def is_blank_atom(a):
+    return any(ch.isspace() for ch in a)
+
+
+def tame_edges(line):
+    """GUARD: Unicode blanks other than space/tab stay strictly INSIDE the text of a line (see ASSUMPTIONS)."""
+    body = line.strip(' \t')
+    if not body or not (body[0].isspace() or body[-1].isspace()):
+        return line
+    at = line.index(body)
+    fixed = ('x' if body[0].isspace() else '') + body + ('x' if body[-1].isspace() else '')
+    return line[:at] + fixed + line[at + len(body):]
+
 
 def gen_name(r, used):
     for _ in range(100):
@@ -204,37 +255,37 @@ def gen_name(r, used):
     return n
 
 
-def gen_first(r):
+def gen_first(r, atoms=VAL_ATOMS):
     k = r.random()
     if k < 0.25:
         core_ = r.choice(FIRST_SPECIAL)
     elif k < 0.33:
-        core_ = r.choice(':#') + ''.join(r.choice(VAL_ATOMS) for _ in range(r.randint(0, 5)))
+        core_ = r.choice(':#') + ''.join(r.choice(atoms) for _ in range(r.randint(0, 5)))
     else:
-        core_ = ''.join(r.choice(VAL_ATOMS) for _ in range(r.randint(0, 9)))
+        core_ = ''.join(r.choice(atoms) for _ in range(r.randint(0, 9)))
     return r.choice(PADS_L) + core_ + r.choice(PADS_R)
 
 
-def gen_cont(r):
+def gen_cont(r, atoms=VAL_ATOMS):
     k = r.random()
     if k < 0.35:
         body = r.choice(CONT_SPECIAL)
     elif k < 0.45:
-        body = '#' + ''.join(r.choice(VAL_ATOMS) for _ in range(r.randint(0, 5)))
+        body = '#' + ''.join(r.choice(atoms) for _ in range(r.randint(0, 5)))
     else:
         body = ''
         while not body.strip(' \t'):
-            body = ''.join(r.choice(VAL_ATOMS) for _ in range(r.randint(1, 9)))
+            body = ''.join(r.choice(atoms) for _ in range(r.randint(1, 9)))
     return r.choice(LEADS) + body + r.choice(TRAILS)
 
 
-def gen_paragraph(r):
+def gen_paragraph(r, atoms=VAL_ATOMS):
     used = set()
     para = []
     for _ in range(r.randint(1, 6)):
         name = gen_name(r, used)
-        first = gen_first(r)
-        conts = [gen_cont(r) for _ in range(r.choice([0, 0, 0, 1, 1, 2, 3, 5]))]
+        first = gen_first(r, atoms)
+        conts = [gen_cont(r, atoms) for _ in range(r.choice([0, 0, 0, 1, 1, 2, 3, 5]))]
         para.append([name, first, conts])
     return para
 
@@ -287,6 +338,80 @@ def grid_docs():
         i += 1
 
 
+def gen_uni_doc(r):
+    """A random document whose values draw about every second atom from the "uni" lists.  -> (doc, profile)"""
+    profile = r.choice(UNI_PROFILES)
+    uni = UNI_BY_PROFILE[profile]
+    atoms = VAL_ATOMS + uni * max(1, 40 // len(uni))
+    table = PROFILE_TABLES['any' if profile == 'any' else profile]
+    n = r.choice([1, 1, 1, 2, 2, 3, 4])
+    doc = []
+    for _ in range(n):
+        para = gen_paragraph(r, atoms)
+        # one more deliberate placement per paragraph: an atom as the LAST character of the last line of a field
+        # (byte 0x85 / 0xA0 directly before the line end) or as the whole text of a continuation line
+        field = para[r.randrange(len(para))]
+        a = r.choice([x for x in uni if not is_blank_atom(x)])
+        if field[2] and r.random() < 0.6:
+            field[2][r.randrange(len(field[2]))] = r.choice(LEADS) + r.choice(['', 'ab', 'K: v ']) + a
+        else:
+            field[1] = r.choice(PADS_L) + r.choice(['', 'ab', 'x ']) + a + r.choice(PADS_R)
+        doc.append([[nm, tame_edges(f.translate(table)), [tame_edges(c.translate(table)) for c in cs]]
+                    for nm, f, cs in para])
+    return doc, profile
+
+
+UNI_SPOTS = ('start', 'mid', 'end', 'whole')
+
+
+def uni_place(atom, spot):
+    return {'start': atom + 'ab', 'mid': 'a' + atom + 'b', 'end': 'ab' + atom, 'whole': atom}[spot]
+
+
+def uni_grid_docs():
+    """Enumerated: every "uni" atom x {first line, continuation line} x {start, mid, end, whole line text} (blank atoms:
+    mid only), six such fields per single-paragraph document (all four APIs and the armoured forms see them), grouped
+    so that the atoms the 8-bit encodings can hold sit in documents those encodings can hold entirely; plus, per atom,
+    a two-paragraph document with the atom last before / first after the paragraph boundary.
+    Yields (index, doc, profile)."""
+    groups = {'latin1': [], 'cp1252': [], 'any': []}
+    for a in UNI_ALL:
+        g = 'latin1' if _encodable(a, 'latin-1') else ('cp1252' if _encodable(a, 'cp1252') else 'any')
+        spots = ('mid',) if is_blank_atom(a) else UNI_SPOTS
+        for where in ('first', 'cont'):
+            for spot in spots:
+                groups[g].append((a, where, spot))
+    i = 0
+    for g in ('latin1', 'cp1252', 'any'):
+        combos = groups[g]
+        for at in range(0, len(combos), 6):
+            para = [['Package', 'p', []]] if (at // 6) % 2 else []
+            for k, (a, where, spot) in enumerate(combos[at:at + 6]):
+                j = at + k
+                text = uni_place(a, spot)
+                if where == 'first':
+                    first = PADS_L[j % len(PADS_L)] + text + PADS_R[(j // 2) % len(PADS_R)]
+                    conts = [' z'] if j % 3 == 0 else []
+                else:
+                    line = LEADS[j % len(LEADS)] + text + TRAILS[(j // 3) % len(TRAILS)]
+                    first = ('', 'v', '')[j % 3]
+                    conts = ([line], [line, ' z'], [' y', line], ['\ty', line, ' z\t'])[(j // 2) % 4]
+                para.append(['F%d' % k, first, conts])
+            yield i, [para], g
+            i += 1
+    for n, a in enumerate(UNI_ALL):
+        if is_blank_atom(a):
+            continue
+        g = 'latin1' if _encodable(a, 'latin-1') else ('cp1252' if _encodable(a, 'cp1252') else 'any')
+        if n % 2:
+            p1 = [['A', '1', []], ['B', 'ab' + a, []]]
+        else:
+            p1 = [['A', 'ab' + a, [' x', (' ', '\t')[n % 3 == 0] + 'cd' + a]]]
+        p2 = [['C', a + 'ab', [' ' + a]], ['D', '2', []]]
+        yield i, [p1, p2], g
+        i += 1
+
+
 # ---------------------------------------------------------------------------
 # model side helpers
 
@@ -315,6 +440,9 @@ def in_domain(doc):
             for c in conts:
                 if set(c) & bad_ctl or not c or c[0] not in ' \t' or not c.strip():
                     return False
+                b = c.strip(' \t')
+                if b[0].isspace() or b[-1].isspace():
+                    return False      # GUARD: Unicode blanks only strictly inside the text of a line
     return bool(doc)
 
 
@@ -355,6 +483,82 @@ def features(ctx, doc):
     return nontriv
 
 
+def uni_classes(doc):
+    """Which "uni" classes the VALUES of a document belong to - decided from the document itself.
+    -> (list of class tags, set of characters of the values)"""
+    text = '\n'.join(first + ''.join('\n' + c for c in conts) for para in doc for _, first, conts in para)
+    tags = []
+    if text.isascii():
+        return tags, set()
+    nfc = unicodedata.normalize('NFC', text)
+    if nfc != text:
+        tags.append('not-nfc')
+    if unicodedata.normalize('NFD', text) != text:
+        tags.append('not-nfd')
+    if unicodedata.normalize('NFKC', text) != nfc:
+        tags.append('compat')
+    u8 = text.encode('utf-8')
+    if 0x85 in u8:
+        tags.append('byte85')
+    if 0xa0 in u8:
+        tags.append('byteA0')
+    return tags, set(text) - set('\n')
+
+
+def file_byte_tags(chars, enc):
+    """Look-alike bytes in the ENCODED form of the value characters, for a text file with a declared encoding."""
+    fam = enc_family(enc)
+    tags = []
+    if fam == '8bit':
+        bs = set()
+        for ch in chars:
+            bs.update(ch.encode(enc))
+        if 0x85 in bs:
+            tags.append('8bit:85')
+        if 0xa0 in bs:
+            tags.append('8bit:A0')
+    elif fam == 'utf-16':
+        for ch in chars:
+            if set(ch.encode('utf-16-le')) & LOOKALIKE_UTF16:
+                tags.append('utf-16:0A-0D-85')
+                break
+    return tags
+
+
+LOOKALIKE_UTF16 = frozenset([0x0a, 0x0d, 0x85])
+
+
+def form_name(cont):
+    return '%s:%s' % (cont[:2], enc_family(cont[3:])) if is_encfile(cont) else cont
+
+
+def uni_features(ctx, doc, tags):
+    for t in tags:
+        ctx.count('feat:uni-%s' % t)
+    for para in doc:
+        for _, first, conts in para:
+            for where, line in [('first', first.strip(' \t'))] + [('cont', c.strip(' \t')) for c in conts]:
+                if not line or line.isascii():
+                    continue
+                last = line[-1].encode('utf-8')[-1]
+                if last == 0x85 or last == 0xa0:
+                    ctx.count('feat:uni-%s-line-ends-in-byte-%02X' % (where, last))
+                if any(ch.isspace() and ch not in ' \t' for ch in line):
+                    ctx.count('feat:uni-%s-line-inner-unicode-blank' % where)
+                if unicodedata.normalize('NFC', line) != line:
+                    ctx.count('feat:uni-%s-line-not-nfc' % where)
+
+
+def uni_comments(r, profile):
+    """Comment lines carrying "uni" atoms (comment lines are ignored whatever they contain)."""
+    uni = UNI_BY_PROFILE[profile]
+    out = []
+    for _ in range(6):
+        a, b = r.choice(uni), r.choice(uni)
+        out.append(r.choice(['# ' + a, '#' + a, '# x' + a + ' ' + b, '#\t' + a + b, '# K: ' + a, '#' + a + '\t']))
+    return out
+
+
 def armour_params(r):
     return {'t1': r.choice(MARK_TRAILS), 't2': r.choice(MARK_TRAILS), 't3': r.choice(MARK_TRAILS),
             'hdr': r.choice([['Hash: SHA256'], ['Hash: SHA256'], ['Hash: SHA512'], [], ['Hash: SHA1', 'Hash: SHA256']]),
@@ -375,19 +579,19 @@ def armour(lines, a):
     return out
 
 
-def with_comments(lines, r):
+def with_comments(lines, r, pool=COMMENTS):
     out = []
     n = 0
     for l in lines:
         while r.random() < 0.22:
-            out.append(r.choice(COMMENTS))
+            out.append(r.choice(pool))
             n += 1
         out.append(l)
     while r.random() < 0.3:
-        out.append(r.choice(COMMENTS))
+        out.append(r.choice(pool))
         n += 1
     if not n:
-        out.insert(r.randint(0, len(out)), r.choice(COMMENTS))
+        out.insert(r.randint(0, len(out)), r.choice(pool))
     return out
 
 
@@ -612,14 +816,29 @@ def evaluate(ctx, case, record=True):
     # decorations are drawn ONCE per case, so that which forms fail is a function of the form classes only
     aparams = armour_params(r)
     blanks = [''] * r.choice([1, 1, 2, 3])
-    c_base = with_comments(base, r)
-    c_blanks = with_comments(blanks, r) if r.random() < 0.5 else blanks     # comments around the leading blank lines
+    uni = case.get('uni')
+    pool = COMMENTS
+    if uni in UNI_BY_PROFILE:
+        # "uni" cases only (older recorded cases keep their decorations): comment lines and an armour header of the
+        # signature block that carry "uni" atoms of the document's profile
+        pool = COMMENTS[:6] + uni_comments(r, uni)
+        if aparams['sighdr'] and r.random() < 0.6:
+            aparams['sighdr'] = ['Comment: ' + r.choice(UNI_BY_PROFILE[uni]) + ' x' + r.choice(UNI_BY_PROFILE[uni])] \
+                + aparams['sighdr']
+            if record:
+                ctx.count('feat:uni-armour-comment-header')
+    c_base = with_comments(base, r, pool)
+    c_blanks = with_comments(blanks, r, pool) if r.random() < 0.5 else blanks     # comments around the leading blank lines
     final_nl = r.random() < 0.75
     # drawn AFTER all older decorations, so that a recorded case keeps the decorations it had
     salt = r.getrandbits(16)
     tw_newline = r.choice(TW_NEWLINES)
     tmp = workdir(ctx)
     doc_nonascii = not all(l.isascii() for l in base)
+    utags, uchars = uni_classes(doc) if record else ([], set())
+    if utags:
+        uni_features(ctx, doc, utags)
+    unames = {}       # (api, form name) -> counter names of this document's classes
     marker_trail = bool(aparams['t1'] or aparams['t2'] or aparams['t3'])
     cell = -1
     for arm in ((0, 1) if single else (0,)):
@@ -713,6 +932,18 @@ def evaluate(ctx, case, record=True):
                                     ctx.count('gpgapi-encfile:%s' % ('utf-8' if enc in UTF8_SPELLINGS else 'non-utf-8'))
                             elif cont == 'binfile':
                                 ctx.mon('M.binfile')
+                            if utags:
+                                ukey = (api, cont)
+                                names = unames.get(ukey)
+                                if names is None:
+                                    fname = form_name(cont)
+                                    names = ['uni:%s:%s:%s' % (t, api, fname) for t in utags]
+                                    if encfile:
+                                        names += ['uni:filebytes:%s:%s' % (t, api) for t in file_byte_tags(uchars, cont[3:])]
+                                    unames[ukey] = names
+                                ctx.mon('M.uni')
+                                for nm in names:
+                                    ctx.count(nm)
                         try:
                             if api == 'iter_paragraphs':
                                 got = [observe(p) for p in deb822.Deb822.iter_paragraphs(src)]
@@ -754,6 +985,8 @@ def shrink(ctx, case, key):
 
     cur = {'doc': [[[n, f, list(cs)] for n, f, cs in p] for p in case['doc']],
            'dump': case.get('dump', 'str'), 'deco': case.get('deco', 0)}
+    if 'uni' in case:
+        cur['uni'] = case['uni']
     changed = True
     while changed and budget[0] > 0:
         changed = False
@@ -789,11 +1022,21 @@ def shrink(ctx, case, key):
 def cases(ctx):
     r = ctx.rng('docs')
     n = ctx.size(DOCS['quick'], DOCS['thorough'])
+    ru = ctx.rng('uni-docs')
     for i in range(n):
+        if i % UNI_EVERY == UNI_EVERY - 1:
+            # every UNI_EVERY-th random document is a "uni" document (own stream; the others are what they were)
+            doc, profile = gen_uni_doc(ru)
+            yield {'doc': doc, 'dump': DUMP_MODES[(i // UNI_EVERY + ctx.shard) % 4], 'deco': ru.getrandbits(32),
+                   'uni': profile}
+            continue
         yield {'doc': gen_doc(r), 'dump': DUMP_MODES[(i + ctx.shard) % 4], 'deco': r.getrandbits(32)}
     for i, doc in grid_docs():
         if ctx.mine(i):
             yield {'doc': doc, 'dump': DUMP_MODES[i % 4], 'deco': i}
+    for i, doc, profile in uni_grid_docs():
+        if ctx.mine(i):
+            yield {'doc': doc, 'dump': DUMP_MODES[(i + i // 4) % 4], 'deco': 500000 + i * 7 + ctx.seed, 'uni': profile}
 
 
 def run_case(ctx, case):
@@ -805,6 +1048,8 @@ def run_case(ctx, case):
     ctx.count('doc:fields', sum(len(p) for p in doc))
     if features(ctx, doc):
         ctx.nontrivial(case, key=core.case_hash(doc))
+    if case.get('uni'):
+        ctx.count('doc:uni')
     found = evaluate(ctx, case)
     for key, (msg, n) in sorted(found.items()):
         small = case
